@@ -1,6 +1,6 @@
 ---- MODULE MC_HttpRun ----
 EXTENDS MC_Http
-R1 == [id |-> "R1", qc |-> FALSE, ts |-> <<T("MIXED", "none"), T("MULTIPART", "none"), T("POST", "other"), T("FORM", "lcjson"), T("SSE", "none"), T("WS", "none"), T("GRAPHQL", "gqlresp")>>]
+R1 == [id |-> "R1", qc |-> TRUE, ts |-> <<T("MIXED", "none"), T("FORM", "json+other"), T("SSE", "none"), T("GRAPHQL", "none"), T("MULTIPART", "lcjson"), T("WS", "none"), T("OPTIONS", "none"), T("POST", "other")>>]
 ASSUME PrintT(ToJson([servers |-> {R1}]))
 OnlyS1 == {S1}
 OnlyS2 == {S2}
